@@ -296,10 +296,15 @@ def uninstall (n : Node) (name : String) : Option Node :=
         else none
       | none => some { n with software := ddel name n.software, portMap := pm, classMap := cm }
 
+/-- `Software.__init__`: `health_state_actual = config.starting_health_state`; software configured to start FIXING gets
+its countdown loaded from `config.fixing_duration` (so that the first tick does not meet a `None` countdown). -/
+def _root_.Primaite.Lifecycle.Soft.configured (health : Health) (fixDur : Int) : Soft :=
+  { actual := health, fixDur := fixDur, fixCd := if health = .fixing then some fixDur else none }
+
 /-- the registry writes of `SoftwareManager.install` for a freshly constructed Service object -/
 def registerSvc (n : Node) (c : Cls) (listen : List Nat) (health : Health) (fixDur : Int) : Node :=
   let u := n.next
-  let s0 : Svc := { sw := { actual := health, fixDur := fixDur } }
+  let s0 : Svc := { sw := Soft.configured health fixDur }
   let s1 := (s0.start n.isOn).1
   { n with
     next := u + 1,
@@ -314,7 +319,7 @@ def registerSvc (n : Node) (c : Cls) (listen : List Nat) (health : Health) (fixD
 the last statement forces CLOSED (the countdown stays). -/
 def registerApp (n : Node) (c : Cls) (listen : List Nat) (health : Health) (fixDur : Int) : Node :=
   let u := n.next
-  let a0 : App := { sw := { actual := health, fixDur := fixDur } }
+  let a0 : App := { sw := Soft.configured health fixDur }
   let a1 := (if c.ctorRuns then a0.run n.isOn else a0).applyAll [.install, .forceClosed]
   { n with
     next := u + 1,
@@ -359,12 +364,13 @@ def openPorts (n : Node) : List Nat :=
 def handles (n : Node) (u : Nat) : Bool := n.isOn && n.isRunning u
 
 /-- `SoftwareManager.receive_payload_from_session_manager`: the objects whose `receive` is invoked, in order.
-`none` = `self.software.get("nmap").receive` on a node without nmap (`AttributeError`). -/
+A port-scan payload goes to `software["nmap"]` only; on a node without nmap it is dropped (nobody receives it).
+(The `Option` is kept for the driver's sake; the function never returns `none`, see `C13_deliver_never_raises`.) -/
 def receivers (n : Node) (port proto : Nat) (scan : Bool) : Option (List Nat) :=
   if scan then
     match dget "nmap" n.software with
     | some u => some [u]
-    | none => none
+    | none => some []
   else
     let main := dget (port, proto) n.portMap
     let listeners := (n.software.map (·.2)).filter (fun u =>
